@@ -460,7 +460,7 @@ class Gen:
         r, c = self.rng, self.cfg
         grp, rec = self.groups[gi]
         lower = self.edb + [x for (g, _) in self.groups[:gi] for x in g]
-        if getattr(self, "eqrel", None) is not None and self.eqrel_group < gi:
+        if getattr(self, "eqrel", None) is not None and 0 <= self.eqrel_group < gi:
             lower = lower + [self.eqrel]
         bound = {}
         self.nonatom = set()
